@@ -247,12 +247,13 @@ func runCase(t *rapid.T, engine string, parts int, recName string) {
 	nulFree := engine == "mem" && known.Active("C20-mem-radix-seek-lowerbound-nul")
 	pool := gen.DrawPool(t, nulFree)
 	g := gen.NewGrammar(gen.FamKV|gen.FamHash|gen.FamList|gen.FamSet|gen.FamZSet|gen.FamTTL|gen.FamExtra, gen.FarDurations)
-	a, err := simkv.New(simkv.Options{Engine: engine, Partitions: parts})
+	policy := rapid.SampledFrom([]string{"wait_compact", "local_deletion"}).Draw(t, "policy") // both data layouts
+	a, err := simkv.New(simkv.Options{Engine: engine, Partitions: parts, ExpPolicy: policy})
 	if err != nil {
 		t.Fatalf("HARNESS: %v", err)
 	}
 	defer a.Close()
-	b, err := simkv.New(simkv.Options{Engine: engine, Partitions: parts})
+	b, err := simkv.New(simkv.Options{Engine: engine, Partitions: parts, ExpPolicy: policy})
 	if err != nil {
 		t.Fatalf("HARNESS: %v", err)
 	}
@@ -549,6 +550,33 @@ func TestKnownHidxWhereWithoutField(t *testing.T) {
 			r := sim.Do("hidx.from", "default:t", "where", w).One()
 			if !r.IsErr() {
 				return true, "HIDX.FROM t WHERE " + w + " -> " + r.String() + ", expected an error reply"
+			}
+		}
+		return false, ""
+	})
+}
+
+func TestKnownNonUTF8TableName(t *testing.T) {
+	known.Probe(t, "C11-non-utf8-table-name-panics-metrics", func() (v bool, detail string) {
+		sim, err := simkv.New(simkv.Options{Engine: "mem"})
+		if err != nil {
+			return false, "HARNESS: " + err.Error()
+		}
+		defer sim.Close()
+		for _, c := range [][]string{{"rpush", "default:t\xff:l"}, {"sadd", "default:t\xff:s"}, {"hmset", "default:t\xff:h"}, {"zadd", "default:t\xff:z"}} {
+			for i := 0; i < 140; i++ {
+				switch c[0] {
+				case "hmset":
+					c = append(c, fmt.Sprintf("f%03d", i), "v")
+				case "zadd":
+					c = append(c, fmt.Sprint(i), fmt.Sprintf("m%03d", i))
+				default:
+					c = append(c, fmt.Sprintf("e%03d", i))
+				}
+			}
+			r := sim.Do(c...)
+			if poisoned(sim) || r.Closed {
+				return true, fmt.Sprintf("%s with 140 elements on a key whose table name is not valid UTF-8 (t\\xff) panics in the apply path: %s", strings.ToUpper(c[0]), r.String())
 			}
 		}
 		return false, ""
